@@ -20,6 +20,8 @@ OUser ==
      \/ Is("delruler") /\ rdir.root /\ DelRuler(E.what)
      \/ Is("env") /\ ChangeEnv(E.v)
      \/ Is("mv") /\ Has(ws, E.p) /\ Move(E.p, E.q)
+     \/ Is("rmdir") /\ RmDir(E.d, SeqSet(E.ps))
+     \/ Is("mkdir") /\ MkDir(E.d, SeqSet(E.ps))
      \/ Is("corrupt") /\ (E.what = "table" => rdir.tab = "ok") /\ (E.what # "table" => Has(hist, E.rid)) /\ Corrupt(E.what, E.rid)
 
 OStart ==
@@ -39,7 +41,7 @@ ORet ==
   /\ Is("ret") /\ UNCHANGED <<scn, ord, rules, env, vol>>
   /\ LoadDisk(E.state)
   /\ verdict' = E.verdict
-  /\ ev' = Keep(E, {"a", "kind", "verdict", "errs", "stat"})
+  /\ ev' = Keep(E, {"a", "kind", "verdict", "errs", "stat", "nostat"})
   /\ g' = Fold(g, ev', ws', cache', hist', fstab', rdir', ScopeTargets(g.goal))
 
 OCrash ==
@@ -60,7 +62,7 @@ ObsProps ==
   /\ Chk("C06_SameAsSerial", C06_SameAsSerial)
   /\ Chk("C07_ContentAddressed", (ev.a \in {"ret", "crash"}) => C07_ContentAddressed)
   /\ Chk("C08_NothingLost", (ev.a \in {"ret", "crash"}) => C08_NothingLost) /\ Chk("C08_NoOverwrite", T_C08_NoOverwrite)
-  /\ Chk("C09_OnlyScopeTouched", C09_OnlyScopeTouched) /\ Chk("C09_Touched", T_C09_Touched)
+  /\ Chk("C09_OnlyScopeTouched", C09_OnlyScopeTouched) /\ Chk("C09_Touched", T_C09_Touched) /\ Chk("C09_NoDirMade", C09_NoDirMade)
   /\ Chk("C10_CleanMovesToCache", C10_CleanMovesToCache) /\ Chk("C10_BuildBringsBack", C10_BuildBringsBack)
   /\ Chk("C11_CrashStateSane", C11_CrashStateSane) /\ Chk("C11_Recovers", C11_Recovers)
   /\ Chk("C12_InvalidRejected", C12_InvalidRejected) /\ Chk("C16_DamagedRejected", C16_DamagedRejected)
@@ -78,9 +80,10 @@ ObsPropsReal ==
   /\ Chk("C05_Returns", C05_Returns)
   /\ Chk("C07_ContentAddressed", (ev.a \in {"ret"}) => C07_ContentAddressed)
   /\ Chk("C08_NothingLost", (ev.a \in {"ret"}) => C08_NothingLost)
-  /\ Chk("C09_OnlyScopeTouched", C09_OnlyScopeTouched)
+  /\ Chk("C09_OnlyScopeTouched", C09_OnlyScopeTouched) /\ Chk("C09_NoDirMade", C09_NoDirMade)
   /\ Chk("C10_CleanMovesToCache", C10_CleanMovesToCache) /\ Chk("C10_BuildBringsBack", C10_BuildBringsBack)
   /\ Chk("C12_InvalidRejected", C12_InvalidRejected) /\ Chk("C16_DamagedRejected", C16_DamagedRejected)
-  /\ Chk("C17_HistoryKept", C17_HistoryKept)
-  /\ Chk("C20_FailuresOnce", C20_FailuresOnce)
+  /\ Chk("C17_ContradictionReported", C17_ContradictionReported) /\ Chk("C17_HistoryKept", C17_HistoryKept) /\ Chk("C17_OthersUnaffected", C17_OthersUnaffected)
+  /\ Chk("C18_Twin", T_C18_Twin)
+  /\ Chk("C20_FailuresOnce", C20_FailuresOnce) /\ Chk("C20_StatusReal", C20_StatusReal)
 =============================================================================
